@@ -15,11 +15,12 @@ CLASSES = {
     "part": lambda h: h / 3,
     "all": lambda h: h,
     "all+": lambda h: h * (1 + Decimal("5e-6")),
+    "all++": lambda h: h * (1 + Decimal("5e-5")),  # beyond the wallet's snap band (0.001 %) but within 0.01 % of the balance
     "all-": lambda h: h * (1 - Decimal("5e-6")),  # inside Asset.sub's snap band from below: the debit empties the wallet, a refund does not restore it
     "over": lambda h: h * Decimal("1.5") + Decimal("1e-9"),
     "huge": lambda h: Decimal(10) ** 12,
 }
-DEVIANT = {"0", "dust", "all+", "all-", "over", "huge"}
+DEVIANT = {"0", "dust", "all+", "all++", "all-", "over", "huge"}
 
 
 def _bal(c, token):
@@ -127,7 +128,7 @@ class UniAdapter:
         out = []
         pairs = [("part", "part"), ("all", "all"), ("all+", "all+"), ("over", "over"), ("part", "over"), ("over", "part"),
                  ("huge", "part"), ("part", "huge"), ("0", "0"), ("dust", "dust"), ("0", "part"), ("part", "0"), ("all-", "huge"), ("huge", "all-"),
-                 ("all-", "over"), ("over", "all-")]
+                 ("all-", "over"), ("over", "all-"), ("all++", "all"), ("all", "all++")]
         for rname, (lo, hi) in self.ranges.items():
             for cb, cq in pairs:
                 dev = cb in DEVIANT or cq in DEVIANT
